@@ -175,3 +175,10 @@ package prelude
 //@ func (Type).Kind
 //@   trusted
 //@   pure
+
+//@ package runtime
+
+//@ func Stack
+//@   trusted
+//@   modifies elems(buf)
+//@   ensures 0 <= result && result <= len(buf)
